@@ -80,7 +80,14 @@ def integrands(dims):
             tot = tot + (1 if k % 2 == 0 else -1) * _s(a, is3)
         return np.maximum(0.0, tot - 0.2) * 1.5
 
-    return {"separable": separable, "coupled": coupled, "first": first, "ramp": ramp}
+    def intvals(*args):
+        # integer-valued results in an integer dtype (Python int for single points, int64 arrays for the vectorised route)
+        tot = 0
+        for k, (a, is3) in enumerate(zip(args, dims)):
+            tot = tot + np.floor(3 * _s(a, is3)).astype(int) * (k + 1)
+        return tot
+
+    return {"separable": separable, "coupled": coupled, "first": first, "ramp": ramp, "intvals": intvals}
 
 
 def reference(grids, f):
